@@ -64,9 +64,10 @@ def upgrade():
     elif op.get_bind().dialect.name == "sqlite":
         op.execute(
             """
+            -- datetime() drops fractional seconds, so re-append them.
             update job set
-              start_time = datetime(start_time, 'utc'),
-              end_time = datetime(end_time, 'utc');
+              start_time = datetime(start_time, 'utc') || substr(start_time, 20),
+              end_time = datetime(end_time, 'utc') || substr(end_time, 20);
             """
         )
 
@@ -95,8 +96,9 @@ def downgrade():
     elif op.get_bind().dialect.name == "sqlite":
         op.execute(
             """
+            -- datetime() drops fractional seconds, so re-append them.
             update job set
-              start_time = datetime(start_time, 'localtime'),
-              end_time = datetime(end_time, 'localtime');
+              start_time = datetime(start_time, 'localtime') || substr(start_time, 20),
+              end_time = datetime(end_time, 'localtime') || substr(end_time, 20);
             """
         )
